@@ -38,6 +38,9 @@ def run(ctx):
             stim.append({"ev": json.loads(json.loads(line[len('<<"HIST", '):-2]))})
     if not stim:
         raise vf.Machinery("no interleavings generated")
+    directed = json.load(open(os.path.join(g.dir, "directed.json")))
+    stim += [{"ev": h, "all": True} for h in directed]
+    ctx.cov["directed_interleavings"] = len(directed)
     spath = os.path.join(ctx.work, "stimuli.ndjson")
     vf.write_ndjson(spath, stim)
     out = os.path.join(ctx.work, "traces.ndjson")
